@@ -435,6 +435,35 @@ theorem iter_write_ryw_conditions :
       RangeUntouched tx s' lim) :=
   ⟨fun _ s' lim hb => rangeUntouched_of_empty hb s' lim, fun _ s' lim ho => rangeUntouched_of_outside s' lim ho⟩
 
+/-- … and the shape the wallet's removal step has when it iterates the credits: `NewIterator(nil)` over
+    a whole bucket `p` in a transaction that has so far written only to OTHER buckets (or to the
+    bucket index) – whatever it put, deleted or overwrote there. -/
+theorem iter_write_ryw_other_buckets {tx : Tx} {b : Bucket} {p : Path} (hb : b.IsAt p) (lim : Bytes)
+    (hl : (b.iterBounds [] []).2 = some lim)
+    (hk : ∀ k, ((tx.b.puts.get k).isSome = true ∨ (tx.b.deletes.get k).isSome = true) →
+      (∃ q kk, NoSep q ∧ q ≠ p ∧ k = dataKey q kk) ∨ ∃ s, k = indexKey s) :
+    RangeUntouched tx (b.iterBounds [] []).1 lim :=
+  rangeUntouched_other_buckets hb lim hl hk
+
+-- instance: bucket `a`; the batch overwrote and deleted keys of bucket `b` only
+example :
+    let tx : Tx := { readOnly := false, db := [([49, 95, 97, 95, 97], [1]), ([49, 95, 98, 95, 97], [2])],
+                     b := Batch.replay [.put [49, 95, 98, 95, 97] [3], .del [49, 95, 98, 95, 97]] }
+    ∀ k, ((tx.b.puts.get k).isSome = true ∨ (tx.b.deletes.get k).isSome = true) →
+      (∃ q kk, NoSep q ∧ q ≠ [[97]] ∧ k = dataKey q kk) ∨ ∃ s, k = indexKey s := by
+  intro tx k hk
+  left
+  have hkey : k = [49, 95, 98, 95, 97] := by
+    have h1 : tx.b.puts = [([49, 95, 98, 95, 97], ([3], 1))] := by decide
+    have h2 : tx.b.deletes = [([49, 95, 98, 95, 97], 2)] := by decide
+    rw [h1, h2] at hk
+    simp only [SMap.get] at hk
+    by_cases hne : k = [49, 95, 98, 95, 97]
+    · exact hne
+    · simp [hne] at hk
+  refine ⟨[[98]], [97], by intro x hx; simp at hx; subst hx; decide, by decide, ?_⟩
+  rw [hkey]; decide +kernel
+
 -- the condition holds in a non-trivial transaction: committed 1_a_a, 1_a_c; the transaction puts the new key 1_a_b,
 -- deletes it, puts it again, and writes to bucket 1_b
 example :
